@@ -3,14 +3,14 @@ CONSTANTS
   MaxDims = 3
   Lens = {1, 2}
   Past = 3
-  AB_ViewRestart = TRUE
+  AB_ViewRestart = FALSE
   AB_AxisLenConst = FALSE
   AB_GetAxisOffByOne = FALSE
   NthArgs = {0, 1, 2, 9}
   NthBudget = 1
   NthMaxCells = 9
   CloneBudget = 1
-  AB_CloneResets = FALSE
+  AB_CloneResets = TRUE
   AB_NthUnclamped = FALSE
   AB_View0Dim = FALSE
   ShapeSet <- MCShapeSet
